@@ -2,7 +2,8 @@
 // ---------- opaque handlers (rule 7) ----------
 #[verifier::external_body] pub struct Fn1 { x: u8 }
 #[verifier::external_body] pub struct Fn2 { x: u8 }
-#[verifier::external_body] pub struct FnN { x: u8 }
+#[verifier::external_body] pub struct InnerFunction { x: u8 }      // dyn Fn(Vec<Value>) -> Result<Value> + Send + Sync
+pub type FnN = std::sync::Arc<InnerFunction>;
 pub uninterp spec fn apply1(h: Fn1, a: SV) -> Option<SV>;
 pub uninterp spec fn apply2(h: Fn2, a: SV, b: SV) -> Option<SV>;
 pub uninterp spec fn applyn(h: FnN, a: Seq<SV>) -> Option<SV>;
@@ -25,6 +26,10 @@ impl VxHandler<(Value, Value)> for Fn2 {
 }
 impl VxHandler<(Vec<Value>,)> for FnN {
     open spec fn app(self, a: (Vec<Value>,)) -> Option<SV> { applyn(self, vv_seq(a.0@)) }
+    #[verifier::external_body] fn vx_call(self, a: (Vec<Value>,)) -> (r: Result<Value>) { unimplemented!() }
+}
+impl<'b> VxHandler<(Vec<Value>,)> for &'b FnN {
+    open spec fn app(self, a: (Vec<Value>,)) -> Option<SV> { applyn(*self, vv_seq(a.0@)) }
     #[verifier::external_body] fn vx_call(self, a: (Vec<Value>,)) -> (r: Result<Value>) { unimplemented!() }
 }
 pub fn vx_apply<A, H: VxHandler<A>>(h: H, a: A) -> (r: Result<Value>) ensures agree_v(r, h.app(a)) { h.vx_call(a) }
@@ -72,13 +77,25 @@ pub open spec fn spec_value(s: St, name: Seq<char>) -> Option<SV> {
 pub open spec fn spec_get_func(s: St, name: Seq<char>) -> Option<FnN> {
     if !s.dom().contains(name) { None } else { match s[name] { CV::Var(_) => None, CV::Func(f) => Some(f) } }
 }
+// rule 22: the context is an Arc<Mutex<HashMap<String, ContextValue>>>; its view is the map it holds (A4: no other thread changes it
+// during one evaluation). Reads go through vx_lock() (rule 30): the guard is modelled as a shared reference to the map.
 #[verifier::external_body] pub struct Context { x: u8 }
 impl View for Context { type V = St; uninterp spec fn view(&self) -> St; }
-impl Context {
-  #[verifier::external_body] pub fn value(&self, name: &str) -> (r: Result<Value>) ensures agree_v(r, spec_value(self@, name@)) { unimplemented!() }
-  #[verifier::external_body] pub fn get_func(&self, name: &str) -> (r: Option<FnN>) ensures r == spec_get_func(self@, name@) { unimplemented!() }
-  #[verifier::external_body] pub fn set_variable(&mut self, name: &str, value: Value) ensures final(self)@ == old(self)@.insert(name@, CV::Var(vv(value))) { unimplemented!() }
+pub open spec fn cv_view(c: ContextValue) -> CV { match c { ContextValue::Variable(v) => CV::Var(vv(v)), ContextValue::Function(f) => CV::Func(f) } }
+#[verifier::external_body] #[verifier::reject_recursive_types(V)] pub struct VxMap<V> { x: Vec<V> }      // the HashMap<String, V> behind a lock
+impl<V> VxMap<V> {
+    pub uninterp spec fn map(&self) -> Map<Seq<char>, V>;
+    // trusted: HashMap<String, V>::get::<str>
+    #[verifier::external_body] pub fn get(&self, k: &str) -> (r: Option<&V>)
+        ensures r == (if self.map().dom().contains(k@) { Some(&self.map()[k@]) } else { None::<&V> }) { unimplemented!() }
 }
+impl Context {
+    // trusted: Mutex::lock().unwrap() on the context's map
+    #[verifier::external_body] pub fn vx_lock(&self) -> (r: &VxMap<ContextValue>)
+        ensures r.map().dom() == self@.dom(), forall|k: Seq<char>| #[trigger] r.map().dom().contains(k) ==> cv_view(r.map()[k]) == self@[k] { unimplemented!() }
+}
+pub assume_specification[<ContextValue as Clone>::clone](v: &ContextValue) -> (r: ContextValue) ensures r == *v;
+pub assume_specification[<Value as Clone>::clone](v: &Value) -> (r: Value) ensures r == *v;
 // ---------- derived Clone of the AST types (rule 6) ----------
 pub assume_specification<'a>[<ExprAST<'a> as Clone>::clone](v: &ExprAST<'a>) -> (r: ExprAST<'a>) ensures r == *v;
 pub assume_specification<'a>[<Literal<'a> as Clone>::clone](v: &Literal<'a>) -> (r: Literal<'a>) ensures r == *v;
